@@ -27,7 +27,7 @@ def main():
             faulthandler.cancel_dump_traceback_later()
             r['n'] = c.get('_n')
             m = sys.modules.get('mistral')
-            if m is not None:
+            if m is not None and not r.get('code'):
                 r['code'] = os.path.dirname(os.path.dirname(m.__file__))
             r.pop('trace', None)
             out.write(json.dumps(r, default=str) + '\n')
